@@ -833,6 +833,11 @@ class ODLEncoder(PVLEncoder):
                 )
             sign = "-" if offset < datetime.timedelta(0) else "+"
             (h, m) = divmod(minutes, 60)
+            if h > 12:
+                raise ValueError(
+                    "ODL time zone offsets are limited to 12 hours, and "
+                    f"this time has a larger one: {value}"
+                )
             if m == 0:
                 return t + f"{sign}{h:02d}"
             else:
